@@ -45,10 +45,12 @@ def _rebuilt_copy():
     fcntl.flock(lock, fcntl.LOCK_EX)
     try:
         if not os.path.exists(os.path.join(d, '.built')):
-            # keep at most two older builds
+            # keep at most six older builds, and never remove one that was used in the last half hour (a concurrent check of another tree may be importing from it)
+            import time as _time
             old = sorted((x for x in glob.glob(os.path.join(root, '*')) if os.path.isdir(x)), key=os.path.getmtime)
-            for x in old[:-2]:
-                shutil.rmtree(x, ignore_errors=True)
+            for x in old[:-6]:
+                if _time.time() - os.path.getmtime(os.path.join(x, '.built') if os.path.exists(os.path.join(x, '.built')) else x) > 1800:
+                    shutil.rmtree(x, ignore_errors=True)
             shutil.rmtree(d, ignore_errors=True)
             os.makedirs(d)
             subprocess.run(['rsync', '-a', '--exclude', '.git', '--exclude', 'doc', '--exclude', 'build', '--exclude', '*.so', '--exclude', '*.c',
@@ -58,6 +60,11 @@ def _rebuilt_copy():
                 raise RuntimeError('rebuilding the extensions from the current .pyx failed:\n' + r.stderr[-2000:])
             shutil.rmtree(os.path.join(d, 'build'), ignore_errors=True)
             open(os.path.join(d, '.built'), 'w').write('ok')
+        else:
+            try:
+                os.utime(os.path.join(d, '.built'), None)          # mark as in use
+            except OSError:
+                pass
     finally:
         fcntl.flock(lock, fcntl.LOCK_UN)
         lock.close()
